@@ -8,6 +8,10 @@ CLAIMED = {
   "text": "Bounded symbolic model checking of the EVM word opcodes through the real EVMInterpreter.Run: for every 256-bit operand tuple the returned word equals the Yellow-Paper definition written as one SMT bit-vector operation; memory, stack-manipulation, jump-validity, calldata and return-data selection are checked against in-harness reference models for all offsets/sizes within the stated small ranges.",
   "note": "Trusted: gosym and its models, z3; holiman/uint256 multiply/divide/exp kernels (a module dependency) replaced by exact semantics, so for those opcodes what is decided is the glue in instructions.go (operand order, zero cases). Every Proposal fork active (height 2^40, mainnet config).",
  },
+ "C18": {
+  "text": "Bounded symbolic model checking of the real utility.StrToBigInt / BigIntToStr / FormatDecimalForERC20 / FormatDecimalForRocket: for every integer below 2^256 and every decimal string within the stated digit counts the solver shows exact conversion (no binary rounding), with big.Float rounding modelled by the error bound of the precision and mode the code actually passes.",
+  "note": "Trusted: gosym, z3, the interval model of math/big.Float rounding (over-approximation: unsat is sound; sat is replayed against the real library, several models are tried). A change that is wrong only on inputs the interval model cannot pin down may surface as INCONCLUSIVE instead of VIOLATION.",
+ },
 }
 PENDING = "check not built yet in this session (planned, see DESIGN.md section 5)"
 NA = {
